@@ -395,9 +395,93 @@ def r1(ctx):
     ser = repo.fn("LLSDMessageSerializer.serialize")
     des = repo.fn("LLSDMessageSerializer.deserialize")
     yv = repo.fn("LLSDMessageSerializer._yield_vars")
-    filt = [n for n in walk(yv.node) if isinstance(n, ast.Compare) and isinstance(n.ops[0], ast.In)
-            and ap(n.comparators[0]) == "LLSDDataPacker.SPECS" and (ap(n.left) or "").endswith(".type")]
-    ctx.ob("C12.R1", "_yield_vars selects exactly the variables whose type is in LLSDDataPacker.SPECS", len(filt) == 1, yv.where)
+    # every yield is dominated by `<yielded var>.type in LLSDDataPacker.SPECS` (any guard shape: if / continue / filter)
+    yields = [n for n in walk(yv.node) if isinstance(n, (ast.Yield, ast.YieldFrom))]
+    ctx.floor("C12.R1", "yield statements in _yield_vars", len(yields), 1)
+
+    def _in_specs(e, pol, var):
+        if isinstance(e, ast.Compare) and len(e.ops) == 1 and ap(e.comparators[0]) == "LLSDDataPacker.SPECS" \
+                and ap(e.left) == f"{var}.type":
+            return isinstance(e.ops[0], ast.In) and pol or isinstance(e.ops[0], ast.NotIn) and not pol
+        return False
+    def _filtered_value(g, v, memo, depth=0, in_cache=False):
+        """`v` (in function g) is a sequence of template variables already filtered by `.type in SPECS`."""
+        if depth > 4:
+            return False
+        if isinstance(v, ast.Call) and isinstance(v.func, ast.Name) and v.func.id in ("tuple", "list", "iter") and len(v.args) == 1:
+            return _filtered_value(g, v.args[0], memo, depth + 1, in_cache)
+        if isinstance(v, (ast.GeneratorExp, ast.ListComp)) and isinstance(v.elt, ast.Name):
+            return any(_in_specs(c, True, v.elt.id) or (isinstance(c, ast.UnaryOp) and isinstance(c.op, ast.Not)
+                                                        and _in_specs(c.operand, False, v.elt.id))
+                       for gen in v.generators for c in gen.ifs)
+        if isinstance(v, ast.Name):
+            vals = [st for st in stores(g.node, into_defs=False) if st.path == v.id]
+            if not vals or any(st.kind != "assign" or st.value is None for st in vals):
+                return False
+            ok = True
+            for st in vals:
+                val = st.value
+                # cache read: self.<attr>.get(K) / self.<attr>[K]
+                cache = None
+                if isinstance(val, ast.Call) and call_attr(val) == "get" and (ap(val.func.value) or "").startswith("self."):
+                    cache = ap(val.func.value)
+                elif isinstance(val, ast.Subscript) and (ap(val.value) or "").startswith("self."):
+                    cache = ap(val.value)
+                if cache is not None and in_cache:
+                    continue
+                if cache is not None:
+                    for h in (g.cls.methods.values() if g.cls else [g]):
+                        for cs in stores(h.node, into_defs=True):
+                            if cs.kind == "setitem" and cs.path == cache:
+                                if not (cs.value is not None and _filtered_value(h, cs.value, memo, depth + 1, True)):
+                                    ok = False
+                                # memo key must identify every input of the memoised value as a whole object
+                                src_val = cs.value
+                                if isinstance(src_val, ast.Name):
+                                    defs = [x.value for x in stores(h.node, into_defs=False) if x.path == src_val.id
+                                            and x.kind == "assign" and x.value is not None
+                                            and not (isinstance(x.value, ast.Call) and call_attr(x.value) == "get")]
+                                else:
+                                    defs = [src_val]
+                                hparams = {a.arg for a in h.node.args.args} - {"self", "cls"}
+                                inputs = {n.id for d in defs for n in ast.walk(d) if isinstance(n, ast.Name)} & hparams
+                                key = cs.target.slice
+                                whole = {n.id for n in ast.walk(key) if isinstance(n, ast.Name)
+                                         and not isinstance(parent(n), ast.Attribute)}
+                                memo.append((h, cs.node, cache, norm(key), sorted(inputs - whole)))
+                    continue
+                if not _filtered_value(g, val, memo, depth + 1, in_cache):
+                    ok = False
+            return ok
+        return False
+
+    ok_y = True
+    memo: list = []
+    for y in yields:
+        v = y.value
+        var = ap(v.elts[1]) if isinstance(v, ast.Tuple) and len(v.elts) == 2 else None
+        good = var is not None and any(_in_specs(e, pol, var) for e, pol in facts(y, yv.node))
+        if not good and var is not None:
+            # the variable iterates a sequence that a same-class helper (or a comprehension) already filtered
+            from ..core import ancestors
+            loops = [a for a in ancestors(y) if isinstance(a, ast.For) and var in {ap(x) for x in ast.walk(a.target)}]
+            if loops:
+                it = loops[0].iter
+                if isinstance(it, ast.Call) and isinstance(it.func, ast.Attribute) and ap(it.func.value) in ("self", "cls") \
+                        and yv.cls is not None:
+                    g = repo.lookup_method(yv.cls, it.func.attr)
+                    if g is not None:
+                        rets = [n for n in walk(g.node) if isinstance(n, ast.Return) and n.value is not None]
+                        good = bool(rets) and all(_filtered_value(g, r.value, memo) for r in rets)
+                else:
+                    good = _filtered_value(yv, it, memo)
+        ok_y = ok_y and good
+    ctx.ob("C12.R1", "_yield_vars selects exactly the variables whose type is in LLSDDataPacker.SPECS", ok_y, yv.where,
+           "a yielded (block, tmpl_var) pair is not guarded by `tmpl_var.type in LLSDDataPacker.SPECS`")
+    for h, node, cache, key, missing in memo:
+        ctx.ob("C12.R1", f"{h.qual}: memo table {cache} is keyed by every input of the memoised variable list", not missing,
+               ctx.w(h, node), f"key `{key}` is only a projection of {missing}: two different template blocks with the same "
+               f"projection share one cached variable list (block names repeat across messages)")
     for side, f, meth in (("serialize", ser, "pack"), ("deserialize", des, "unpack")):
         loops = [n for n in walk(f.node) if isinstance(n, ast.For) and isinstance(n.iter, ast.Call)
                  and ap(n.iter.func) == "self._yield_vars"]
@@ -573,18 +657,23 @@ def _emissions(stmts) -> Tuple[Set[bytes], Set[str], List[Tuple[ast.AST, ast.AST
         if isinstance(n, ast.Call) and ap(n.func) == "struct.pack" and n.args and isinstance(n.args[0], ast.Constant):
             fmts.add(_norm_fmt(n.args[0].value))
             if len(n.args) == 2 and isinstance(n.args[1], ast.Call) and ap(n.args[1].func) == "len" and n.args[1].args:
-                # payload = right operand of the enclosing `+`
-                p = parent(n)
-                if isinstance(p, ast.BinOp) and isinstance(p.op, ast.Add):
-                    outer = parent(p)
-                    if p.left is n:
-                        payload = p.right
-                    elif isinstance(outer, ast.BinOp) and outer.left is p:
-                        payload = outer.right
-                    else:
-                        payload = None
-                    if payload is not None:
-                        prefixes.append((n, n.args[1].args[0], payload))
+                # header = the `+` chain that ends with this pack call; payload = what is added to the header,
+                # in the same expression or after the header was bound to a local name
+                top = n
+                while isinstance(parent(top), ast.BinOp) and isinstance(parent(top).op, ast.Add) and parent(top).right is top:
+                    top = parent(top)
+                payload = None
+                pp = parent(top)
+                if isinstance(pp, ast.BinOp) and isinstance(pp.op, ast.Add) and pp.left is top:
+                    payload = pp.right
+                elif isinstance(pp, ast.Assign) and len(pp.targets) == 1 and isinstance(pp.targets[0], ast.Name):
+                    hname = pp.targets[0].id
+                    for u in walk(holder, into_defs=False):
+                        if isinstance(u, ast.BinOp) and isinstance(u.op, ast.Add) and isinstance(u.left, ast.Name) \
+                                and u.left.id == hname:
+                            payload = u.right
+                if payload is not None:
+                    prefixes.append((n, n.args[1].args[0], payload))
     return tags, fmts, prefixes
 
 
@@ -742,8 +831,24 @@ def r2(ctx):
     subj = params[0]
     chain = _chain(wf.node)
     ctx.floor("C12.R2", "branches of the binary formatter's type dispatch", len(chain), 12)
-    nested = [d for d in wf.node.body if isinstance(d, FUNC_TYPES)]
-    nested_em = {d.name: _emissions(d.body) for d in nested}
+    # helpers: nested defs and same-module functions called from a branch (followed transitively)
+    helper_defs: Dict[str, ast.AST] = {d.name: d for d in wf.node.body if isinstance(d, FUNC_TYPES)}
+    for g in repo.all_funcs:
+        if g.module is mod and g.cls is None and g.parent_fn is None and g is not wf and g.name not in helper_defs:
+            helper_defs[g.name] = g.node
+    _em_cache: Dict[str, tuple] = {}
+
+    def helper_emissions(name, seen=()):
+        if name in _em_cache:
+            return _em_cache[name]
+        d = helper_defs[name]
+        t, f, pfx = _emissions(d.body)
+        for c in calls(d):
+            if isinstance(c.func, ast.Name) and c.func.id in helper_defs and c.func.id not in seen and c.func.id != name:
+                t2, f2, p2 = helper_emissions(c.func.id, seen + (name,))
+                t, f, pfx = t | t2, f | f2, pfx + p2
+        _em_cache[name] = (t, f, pfx)
+        return _em_cache[name]
 
     branches = []       # (label, types, test, body)
     for test, body in chain:
@@ -804,8 +909,8 @@ def r2(ctx):
     for label, types, test, body in branches:
         tags, fmts, prefixes = _emissions(body)
         for c in calls(ast.Module(body=list(body), type_ignores=[])):
-            if isinstance(c.func, ast.Name) and c.func.id in nested_em:
-                t2, f2, p2 = nested_em[c.func.id]
+            if isinstance(c.func, ast.Name) and c.func.id in helper_defs:
+                t2, f2, p2 = helper_emissions(c.func.id)
                 tags, fmts, prefixes = tags | t2, fmts | f2, prefixes + p2
         dead = label in shadowed
         for tag in sorted(tags):
